@@ -3,7 +3,7 @@
 EXTENDS EditDistance
 \* <<ins, del, sub>>; uniform (shortcut path), mildly and strongly unequal, sub > ins + del
 \* <<1,3,3>> and <<3,1,5>>: swapping or dropping ONE of the three costs changes which alignment is optimal
-CostsQuick == {<<1, 1, 1>>, <<2, 2, 2>>, <<1, 2, 1>>, <<2, 1, 3>>, <<1, 1, 3>>, <<1, 3, 3>>, <<3, 1, 5>>}
+CostsQuick == {<<1, 1, 1>>, <<2, 2, 2>>, <<1, 2, 1>>, <<2, 1, 3>>, <<1, 1, 3>>, <<1, 3, 3>>, <<3, 1, 5>>, <<2, 1, 1>>}
 CostsDecl  == {<<1, 1, 1>>, <<1, 2, 1>>, <<2, 1, 3>>, <<1, 1, 3>>}
 CostsThorough == CostsQuick \cup {<<1, 2, 3>>, <<3, 1, 1>>, <<1, 3, 2>>, <<2, 3, 1>>, <<3, 3, 1>>}
 AllModes == {"none", "excl", "incl"}
